@@ -52,13 +52,15 @@ def wrap(v, t):
 
 
 class Run:
-    def __init__(self, prog, f, bufs, ptr_params=None, int_params=None, mem_ptrs=None, call_ptrs=None, growable=(), mems=None, depth=0, budget=None, methods=None, ignore=None):
+    def __init__(self, prog, f, bufs, ptr_params=None, int_params=None, mem_ptrs=None, call_ptrs=None, growable=(), mems=None, depth=0, budget=None, methods=None, ignore=None, objects=False):
         self.prog, self.f = prog, f
         self.bufs = bufs                        # name -> list of ints (shared with sub-runs)
         self.vars = {}                          # var id -> int | ('P', buf, idx)
         self.mems = mems if mems is not None else {}   # member name -> value (shared with sub-runs of the same object)
         self.methods = methods or {}            # method name -> 'interp' | callable(run, call expr, arg values)
         self.ignore = ignore                    # callable(stmt) -> True: statement irrelevant to the tracked state, skipped
+        self.objects = objects                  # True: local asl::String / asl::Array objects are modelled as bounds-checked buffers
+        self.objlen = {}                        # var id -> element count of a modelled object (locals and registered parameters)
         self.boxed = {}                         # var id -> buffer name (locals whose address was taken)
         self.call_ptrs = call_ptrs or {}        # method name -> pointer value
         self.growable = set(growable)
@@ -140,13 +142,132 @@ class Run:
             i = self.val(e['i'])
             if isinstance(p, tuple) and hasattr(i, 'candidates'):
                 # abstract index: the element is the join of the elements at every index the abstract value admits
-                return ('bufs', [('P', p[1], p[2] + k_) for k_ in i.candidates()], T(self.f, e.get('t')), e.get('l'))
+                return ('bufs', [('P', p[1], p[2] + k_) for k_ in i.candidates()], T(self.f, e.get('t')), e.get('l'), (p, i))
             if not (isinstance(p, tuple) and isinstance(i, int)):
                 raise Unsupported('index expression `%s`' % pe(e))
             return ('buf', ('P', p[1], p[2] + i), T(self.f, e.get('t')), e.get('l'))
         if k == 'cast':
             return self.lv(e['e'])
+        if k in ('temp', 'paren'):
+            return self.lv(e['e'])
+        if k == 'call' and e.get('op') == '[]' and self.obj_of(e) is not None and len(e.get('a', [])) == 1:
+            i = self.val(e['a'][0])
+            if not isinstance(i, int):
+                raise Unsupported('index expression `%s`' % pe(e))
+            return ('buf', ('P', ('O', self.obj_of(e)), i), T(self.f, e.get('t')), e.get('l'))
         raise Unsupported('lvalue `%s`' % pe(e))
+
+    HEXL, HEXU = [ord(c) for c in '0123456789abcdef'] + [0], [ord(c) for c in '0123456789ABCDEF'] + [0]
+
+    def libc_printf(self, e, fn):
+        """snprintf(dst, size, "%02x", v) and relatives with a literal format of one integer conversion"""
+        args = e.get('a', [])
+        k0 = 2 if fn == 'snprintf' else 1
+        if len(args) != k0 + 2:
+            raise Unsupported('`%s`' % pe(e))
+        fmt = strip(args[k0])
+        while fmt.get('k') == 'cast':
+            fmt = strip(fmt['e'])
+        if fmt.get('k') != 'str':
+            raise Unsupported('format of `%s` is not a literal' % pe(e))
+        text = bytes(fmt['b']).decode('latin-1')
+        dst = self.val(args[0])
+        size = self.val(args[1]) if fn == 'snprintf' else 1 << 20
+        v = self.val(args[k0 + 1])
+        if not (isinstance(dst, tuple) and dst[0] == 'P' and isinstance(size, int)):
+            raise Unsupported('`%s`' % pe(e))
+        import re
+        m = re.match(r'^%(0?)(\d*)([xXdiu])$', text)
+        if not m:
+            raise Unsupported('format "%s"' % text)
+        width = int(m.group(2) or 0)
+        if isinstance(v, int):
+            if m.group(3) in 'xX':
+                body = ('%x' if m.group(3) == 'x' else '%X') % (v & 0xffffffff)
+            else:
+                body = '%d' % v
+            body = body.rjust(width, '0' if m.group(1) else ' ')
+            out = [ord(c) for c in body]
+        else:
+            # abstract value: only two-digit hexadecimal of a byte-sized value is modelled (digit = table[nibble])
+            import absim
+            if not (isinstance(v, absim.BV) and m.group(3) in 'xX' and width == 2 and m.group(1) and v.lo >= 0 and v.hi <= 255):
+                raise Unsupported('`%s` with an abstract argument' % pe(e))
+            tabv = self.HEXL if m.group(3) == 'x' else self.HEXU
+            out = [absim.tab(tabv, (v >> 4) & 15), absim.tab(tabv, v & 15)]
+        out = out[:max(size - 1, 0)] + [0]
+        if size <= 0:
+            return len(out) - 1
+        for j, c in enumerate(out):
+            self.store(('P', dst[1], dst[2] + j), c, e.get('l'))
+        return len(out) - 1
+
+    def libc_strtoul(self, e):
+        p = self.val(e['a'][0])
+        base = self.val(e['a'][2])
+        if not (isinstance(p, tuple) and p[0] == 'P' and base in (10, 16)):
+            raise Unsupported('`%s`' % pe(e))
+        digits = '0123456789abcdef'[:base]
+        v, j = 0, 0
+        while True:
+            c = self.load(('P', p[1], p[2] + j), e.get('l'))
+            if not isinstance(c, int):
+                raise Unsupported('`%s` on abstract characters' % pe(e))
+            ch = chr(c & 255).lower()
+            if ch not in digits or c == 0:
+                break
+            v = v * base + digits.index(ch)
+            j += 1
+        return v
+
+    def tmp_of(self, e):
+        """the call's object is a temporary string produced by a modelled call (substring): its buffer name"""
+        if not self.objects:
+            return None
+        o = strip(e.get('obj') or {})
+        while o.get('k') in ('temp', 'paren', 'cast'):
+            o = strip(o['e'])
+        if o.get('k') == 'call' and (o.get('fn') or '').split('::')[-1] in ('substring', 'substr') and self.obj_of(o) is not None:
+            return o
+        return None
+
+    def tmp_call(self, e, name):
+        inner = self.tmp_of(e)
+        oid = self.obj_of(inner)
+        a = [self.val(x) for x in inner.get('a', [])]
+        n_ = self.objlen[oid]
+        if not all(isinstance(x, int) for x in a) or not a:
+            raise Unsupported('`%s`' % pe(inner))
+        if (inner.get('fn') or '').endswith('substring'):
+            # String::substring(i, j): memcpy of j - i characters from position i, no clamping
+            i0, i1 = a[0], (a[1] if len(a) > 1 else n_)
+        else:
+            # String::substr(i, n): negative i counts from the end, both ends clamped to the length
+            i0 = a[0] + n_ if a[0] < 0 else a[0]
+            i0 = min(i0, n_)
+            i1 = min(i0 + a[1], n_) if len(a) > 1 else n_
+        if i1 < i0:
+            raise OOB(('O', oid), i1, n_, inner.get('l'))
+        chars = [self.load(('P', ('O', oid), j), inner.get('l')) for j in range(i0, i1)]
+        if name in ('hexToInt',) and not e.get('a'):
+            v = 0
+            for c in chars:
+                if not isinstance(c, int):
+                    raise Unsupported('`%s` on abstract characters' % pe(e))
+                ch = chr(c & 255).lower()
+                if ch not in '0123456789abcdef':
+                    break
+                v = v * 16 + '0123456789abcdef'.index(ch)
+            return v
+        if name in ('length',) and not e.get('a'):
+            return len(chars)
+        raise Unsupported('member call `%s` on a substring' % pe(e))
+
+    def obj_of(self, e):
+        o = strip_lv(e.get('obj') or {})
+        if o.get('k') == 'var' and ('O', o.get('id')) in self.bufs:
+            return o['id']
+        return None
 
     def get(self, l):
         if l[0] == 'var' and l[1] in self.boxed:
@@ -164,6 +285,10 @@ class Run:
             if all(isinstance(v_, int) for v_ in vals) and len(set(vals)) == 1:
                 return vals[0]
             import absim
+            base, idx = l[4]
+            if base[1][0] in ('G', 'S') and all(isinstance(v_, int) for v_ in self.bufs[base[1]]):
+                # look-up in a constant table with an abstract index: kept as "that table at that index"
+                return absim.TabVal(tuple(self.bufs[base[1]][base[2]:]), idx)
             return absim.join(vals)
         return self.load(l[1], l[3])
 
@@ -232,6 +357,8 @@ class Run:
             g = self.const_table(e)
             if g is not None:
                 return ('P', g, 0)
+            if ('O', e['id']) in self.bufs:
+                return ('P', ('O', e['id']), 0)
             raise Unsupported('variable %s' % e.get('n'))
         if k == 'mem':
             return self.get(self.lv(e))
@@ -373,6 +500,21 @@ class Run:
             for j in range(n_):
                 self.store(('P', dst[1], dst[2] + j), vals[j], e.get('l'))
             return dst
+        if fn in ('snprintf', 'sprintf') and not e.get('clsp'):
+            return self.libc_printf(e, fn)
+        if fn in ('strtoul', 'strtol') and not e.get('clsp') and len(e.get('a', [])) == 3:
+            return self.libc_strtoul(e)
+        if e.get('obj') is not None and self.tmp_of(e) is not None:
+            return self.tmp_call(e, name)
+        if e.get('obj') is not None and self.obj_of(e) is not None:
+            oid = self.obj_of(e)
+            if e.get('op') == '[]':
+                return self.get(self.lv(e))
+            if name in ('data', 'str', 'ptr', 'operator char *', 'operator const char *', 'operator*') and not e.get('a'):
+                return ('P', ('O', oid), 0)
+            if name in ('length', 'size') and not e.get('a'):
+                return self.objlen[oid]
+            raise Unsupported('member call `%s` on a modelled object' % pe(e))
         if e.get('obj') is not None or e.get('clsp'):
             if name in self.call_ptrs and not e.get('a'):
                 return self.call_ptrs[name]
@@ -415,6 +557,19 @@ class Run:
                 for j, b in enumerate(ini['b'][:tv['n']]):
                     self.bufs[name][j] = b
             return
+        if self.objects and (tv.get('rec') == 'asl::String' or tv.get('recp') == 'asl::Array'):
+            # a local string / array constructed with a length: a zero-filled buffer of that many elements (+1: the NUL
+            # of a String), bounds-checked like any other buffer
+            ini = strip(v.get('init') or {})
+            args = ini.get('a', []) if ini.get('k') == 'construct' else None
+            if args is not None and 1 <= len(args) <= 2 and all(T(self.f, strip_lv(a).get('t')).get('int') for a in args):
+                n_ = self.val(args[-1])
+                if isinstance(n_, int) and 0 <= n_ < (1 << 20):
+                    name = ('O', v['id'])
+                    self.bufs[name] = [0] * (n_ + (1 if tv.get('rec') == 'asl::String' else 0))
+                    self.objlen[v['id']] = n_
+                    return
+            raise Unsupported('local %s of type %s' % (v['n'], tv.get('s')))
         if v.get('init') is None:
             if tv.get('int') or tv.get('ptr'):
                 self.vars.pop(v['id'], None)
